@@ -122,6 +122,20 @@ func main() {
 	if lemmaUnit != nil && onlyRe == nil {
 		units = append(units, lemmaUnit)
 	}
+	var boundedNotes []string
+	if prop == "C13" && onlyRe == nil {
+		N := 31
+		if *thorough {
+			N = 63
+		}
+		if v := os.Getenv("GOCV_BST_N"); v != "" {
+			N, _ = strconv.Atoi(v)
+		}
+		if bu := eng.boundedBST(prop, N); bu != nil {
+			units = append(units, bu)
+			boundedNotes = append(boundedNotes, bu.boundedNote)
+		}
+	}
 	tGen := time.Since(t0) - tLoad
 
 	// collect obligations of this property
@@ -348,6 +362,7 @@ func main() {
 			"solver_ms_total":          totalMs,
 			"abstractions":             sortedKeys(abstractions),
 			"known_findings_hit":       knownHit,
+			"bounded":                  boundedNotes,
 			"undecided_new_sites":      undecided,
 			"vacuity_covers_failed":    vacuityFail,
 			"engine_failures":          engineFailures,
